@@ -58,7 +58,7 @@ def event_for_case(samples, cid, nc, ids, variant):
          "forms": {"perm": [], "dict": [], "df": [], "list": [], "dict_classes": [], "df_classes": [],
                    "dict_default": [], "df_default": []},
          "ova": [], "counts": {}, "metrics": {}, "metrics_dict": {}, "perm_metrics": {},
-         "accuracy": [0, 0], "stacked": {}, "shape_ok": True}
+         "accuracy": [0, 0], "stacked": {}, "stacked2": {}, "shape_ok": True}
     labels = [s[0] for s in samples]
     preds = [s[1] for s in samples]
     weights = [s[2] / ws if ws != 1 else s[2] for s in samples]
@@ -122,6 +122,25 @@ def event_for_case(samples, cid, nc, ids, variant):
             st = np.asarray(getattr(stacked, name)())
             ok = ok and st.shape == (2, n)
             e["stacked"][name] = [rats(st[0]), rats(st[1])] if st.shape == (2, n) else [[], []]
+        # two leading dimensions: shape (2, 3, N, N); as_dict values must be the (2, 3) slices
+        grid = [[M, M2, M], [M2, M2, M]]
+        st2 = ConfusionMatrix(matrix=np.array(grid), classes=cls)
+        e["stacked2"] = {}
+        for name in METRICS[:6] + ["tpr_ci"]:
+            arr = np.asarray(getattr(st2, name)())
+            dd = getattr(st2, name)(as_dict=True)
+            if name == "tpr_ci":
+                ok = ok and arr.shape == (2, 3, n, 2) and all(np.asarray(dd[c]).shape == (2, 3, 2) for c in cm.classes)
+                ok = ok and all(np.array_equal(np.asarray(dd[c]), arr[:, :, j, :], equal_nan=True)
+                                for j, c in enumerate(cm.classes))
+                continue
+            ok = ok and arr.shape == (2, 3, n) and all(np.asarray(dd[c]).shape == (2, 3) for c in cm.classes)
+            if arr.shape == (2, 3, n):
+                e["stacked2"][name] = {
+                    "arr": [[rats(arr[a][b]) for b in range(3)] for a in range(2)],
+                    "dict": [[[gamma.proj_rat(np.asarray(dd[c])[a][b], 1000) for c in cm.classes]
+                              for b in range(3)] for a in range(2)]
+                    if all(np.asarray(dd[c]).shape == (2, 3) for c in cm.classes) else []}
         ci = np.asarray(cm.tpr_ci(alpha=0.1))
         ok = ok and ci.shape == (n, 2)
         e["accuracy"] = gamma.proj_rat(cm.accuracy(), 1000)
